@@ -26,7 +26,7 @@ ASSUMPTIONS = [
 ]
 MIN_NONTRIVIAL = {"quick": 150, "thorough": 1500}
 REQUIRED = {"quick": {"dictionaries_compared": 800, "exhaustive_pairs": 12000, "near_ties": 6, "ngram_stage": 80},
-            "thorough": {"dictionaries_compared": 8000, "exhaustive_pairs": 700000, "near_ties": 10, "ngram_stage": 800}}
+            "thorough": {"dictionaries_compared": 6000, "exhaustive_pairs": 700000, "near_ties": 10, "ngram_stage": 800}}
 
 
 def plan(tier, seed):
